@@ -271,6 +271,12 @@ def check_case(case):
   caller_sup, gin_sup = set(), set()
   n_calls = 0
   for step in case['steps']:
+    if step[0] == 'finalize':
+      # finalizing validates and locks; it calls nothing, so it records nothing
+      if not gin.config_is_locked():
+        gin.finalize()
+        labels.add('finalize-between-calls')
+      continue
     if step[0] == 'clear':
       # the whole configuration is cleared and made again: what was called before the clear is no
       # longer part of the operative config
@@ -298,7 +304,8 @@ def check_case(case):
                      tuple(old_value) if type(old_value) is list else
                      list(old_value) if type(old_value) is tuple else 'other')
         labels.add('rebind-to-equal-value-of-other-type')
-      gin.bind_parameter((scope, builts[pi].selector, param), new_value)
+      with gin.unlock_config():
+        gin.bind_parameter((scope, builts[pi].selector, param), new_value)
       cfg[pi][(scope, param)] = ['lit', new_value]
       rebound = True
       labels.add('rebind')
@@ -485,6 +492,9 @@ def strategy(draw):
         shape['dflt'] = ['v']
     if draw(st.integers(0, 3)) == 0:
       shape['read_operative'] = True
+    if shape['kind'] == 'function' and (shape['dflt'] or shape['kwdflt']) and draw(st.integers(0, 2)) == 0:
+      # a twin made by the same `def` with other default values is registered first
+      shape['twin_other_defaults'] = True
     defaulted = shape['dflt'] + shape['kwdflt']
     if defaulted and draw(st.booleans()):
       shape['nonliteral_defaults'] = draw(st.lists(st.sampled_from(defaulted), unique=True,
@@ -549,6 +559,9 @@ def strategy(draw):
       continue
     if steps and draw(st.integers(0, 9)) == 0:
       steps.append(['clear'])
+      continue
+    if draw(st.integers(0, 9)) == 0:
+      steps.append(['finalize'])
       continue
     pi = draw(st.sampled_from([0, 0, 0, 1, n - 1]))
     named = G.named_params(probes[pi % n])
